@@ -180,6 +180,44 @@ func genUnitCase(r *Rng, fn string) unitCase {
 	return c
 }
 
+// evalUnit runs the implementation's inner function on the case and fills in the facts about its result
+func evalUnit(c *unitCase) (b, a autog.VerifSnap) {
+	func() {
+		defer func() {
+			if rec := recover(); rec != nil {
+				c.Panic = fmt.Sprint(rec)
+			}
+		}()
+		b, a = autog.VerifUnit(c.Fn, graph.EdgeSlice(c.Edges), c.Layers)
+	}()
+	c.EmptyLayer = -1
+	if c.Panic != "" {
+		return
+	}
+	c.After = map[string]int{}
+	maxl, minl := -1<<30, 1<<30
+	used := map[int]bool{}
+	for _, nd := range a.Nodes {
+		c.After[nd.ID] = nd.Layer
+		used[nd.Layer] = true
+		maxl, minl = max(maxl, nd.Layer), min(minl, nd.Layer)
+	}
+	for _, e := range c.Edges {
+		c.LengthBefore += c.Layers[e[1]] - c.Layers[e[0]]
+		c.LengthAfter += c.After[e[1]] - c.After[e[0]]
+		if c.After[e[1]]-c.After[e[0]] < 1 && c.InfeasibleEdge == nil {
+			c.InfeasibleEdge = e
+		}
+	}
+	for l := minl; l <= maxl; l++ {
+		if !used[l] {
+			c.EmptyLayer = l
+			break
+		}
+	}
+	return
+}
+
 func runUnit(fs *flag.FlagSet, prop string, seed uint64, n int, outDir, file string) int {
 	fn := prop // -prop carries the function name
 	if fn == "crossings" {
@@ -215,44 +253,11 @@ func runUnit(fs *flag.FlagSet, prop string, seed uint64, n int, outDir, file str
 	}
 	for i := 0; i < n; i++ {
 		c := genUnitCase(r, fn)
+		b, a := evalUnit(&c)
 		cases = append(cases, c)
-		var b, a autog.VerifSnap
-		func() {
-			defer func() {
-				if rec := recover(); rec != nil {
-					c.Panic = fmt.Sprint(rec)
-				}
-			}()
-			b, a = autog.VerifUnit(fn, graph.EdgeSlice(c.Edges), c.Layers)
-		}()
 		if c.Panic != "" {
-			c.EmptyLayer = -1
-			cases[len(cases)-1] = c
 			continue
 		}
-		c.After = map[string]int{}
-		maxl, minl := -1<<30, 1<<30
-		used := map[int]bool{}
-		for _, nd := range a.Nodes {
-			c.After[nd.ID] = nd.Layer
-			used[nd.Layer] = true
-			maxl, minl = max(maxl, nd.Layer), min(minl, nd.Layer)
-		}
-		for _, e := range c.Edges {
-			c.LengthBefore += c.Layers[e[1]] - c.Layers[e[0]]
-			c.LengthAfter += c.After[e[1]] - c.After[e[0]]
-			if c.After[e[1]]-c.After[e[0]] < 1 && c.InfeasibleEdge == nil {
-				c.InfeasibleEdge = e
-			}
-		}
-		c.EmptyLayer = -1
-		for l := minl; l <= maxl; l++ {
-			if !used[l] {
-				c.EmptyLayer = l
-				break
-			}
-		}
-		cases[len(cases)-1] = c
 		if inShard > 0 {
 			shard.WriteString(";\n")
 		}
